@@ -16,9 +16,9 @@ TInit == tid \in 1..Len(Traces) /\ l = 1 /\ verdict = "run" /\ segs = <<>>
 Obs == [status |-> T.status, disclosed |-> ToSet(T.disclosed)]
 Check == IF T.route = "get"
          THEN IF ~Containment("STATIC", Obs) THEN "containment_get"
-              ELSE IF ~RefusedOutside(LiesInside(StaticAbs, StaticAbs \o segs), Obs) THEN "refused_outside_get" ELSE "ok"
-         ELSE IF ~Containment("ROOT", Obs) THEN "containment_" \o T.route
-              ELSE IF ~RefusedOutside(LiesInside(RootAbs, AbsOf(T.start, segs)), Obs) THEN "refused_outside_" \o T.route ELSE "ok"
+              ELSE IF ~RefusedOutside(LiesInside(StaticAbs, StaticAbs \o GetPath(T.start, segs)), Obs) THEN "refused_outside_get" ELSE "ok"
+         ELSE IF ~Containment(T.root, Obs) THEN "containment_" \o T.route
+              ELSE IF ~RefusedOutside(LiesInside(RootAbsOf(T.root), AbsOf(T.start, segs)), Obs) THEN "refused_outside_" \o T.route ELSE "ok"
 TNext == /\ verdict = "run"
          /\ IF l <= Len(T.segs)
             THEN segs' = Append(segs, T.segs[l]) /\ l' = l + 1 /\ UNCHANGED verdict      \* event: request segment l (Walk)
